@@ -20,6 +20,26 @@ theorem resList_plain (e : String → List String → Option (List Tok)) (ip : L
     simp only [hasVarList, Bool.or_eq_false_iff] at h
     simp [resList, resTok_plain e ip t h.1, ih h.2]
 
+theorem resFallback_plain (e : String → List String → Option (List Tok)) (ip : List String) (ts : List Tok)
+    (h : hasVarList ts = false) : resFallback e ip ts true = removeWhitespace ts := by
+  induction ts with
+  | nil => simp [resFallback, removeWhitespace]
+  | cons t rest ih =>
+    simp only [hasVarList, Bool.or_eq_false_iff] at h
+    have ih' := ih h.2
+    have hr : removeWhitespace (t :: rest) = if t.isWs then removeWhitespace rest else t :: removeWhitespace rest := by
+      simp [removeWhitespace, List.filter_cons]; split <;> simp_all
+    rw [hr]
+    cases t with
+    | ws => simp [resFallback, Tok.isWs, ih']
+    | comment c => simp [resFallback, Tok.isWs, ih']
+    | lit x => simp [resFallback, Tok.isWs, ih']
+    | fn name args => simp [resFallback, Tok.isWs, ih', resTok_plain e ip _ h.1]
+    | ident x => simp [resFallback, Tok.isWs, ih', resTok]
+    | num x => simp [resFallback, Tok.isWs, ih', resTok]
+    | dim x y => simp [resFallback, Tok.isWs, ih', resTok]
+    | other x y => simp [resFallback, Tok.isWs, ih', resTok]
+
 /-! ## generic expander -/
 
 theorem genericFinish_names (P : Params) (names : List String) (results : List (String × List Tok)) (os : List Out)
